@@ -282,8 +282,8 @@ for pm, tier in (("table_u8_p8", "quick"), ("table_u8_p7", "quick")):
 # models::lookup_contiguous_p4 (symbolic table of <= 3 entries at P = 4 through the lookup constructor and both conversions) ends with an undetermined CBMC
 # result after ~5 min (Vec::resize with a symbolic length): not registered; the lookup models are covered by the Verus lookup unit (query function, any
 # table size) and models::lookup_full_precision_p8 (construction and conversion, one table, every quantile).
-kani("models::lookup_contiguous_rejects_p4", ["C19"], kind="bounded", bound="<= 3 entries, P=4", timeout=1200, tier="thorough",
-     fns=[M + "categorical/lookup_contiguous.rs::ContiguousLookupDecoderModel::from_nonzero_fixed_point_probabilities"])
+# models::lookup_contiguous_rejects_p4: the lookup constructor fills a 2^P-entry table; its loops exceed any affordable unwind bound with a symbolic table: not registered
+# (acceptance is decided by the shared accumulate_nonzero_probabilities, covered by the table harnesses; the accepted lookup model by lookup_full_precision_p8).
 # models::non_contiguous_p4 (symbolic table of <= 3 entries with <= 4 symbolic symbols) ends with an undetermined CBMC result after ~5 min: not registered;
 # the non-contiguous decoder is covered by non_contiguous_full_precision_p8, non_contiguous_fast_counts and, for acceptance, by the shared accumulate_nonzero_probabilities harnesses.
 kani("models::non_contiguous_full_precision_p8", ["C03", "C10", "C20"], kind="bounded", bound="one 3-entry table at P == Probability::BITS (explicit and inferred last entry), every quantile",
